@@ -230,6 +230,30 @@ def _splice_fn(src_text, f, counts):
     return attrs + sig + clauses + "\n" + body + "\n"
 
 
+def _stub_fn(src_text, f):
+    """signature + contract clauses of a function whose body can no longer be spliced; None if even the signature is gone"""
+    try:
+        info = rsx.find_fn(src_text, f["name"], f.get("impl_of"), f.get("impl_filter"))
+    except Undecided:
+        return None
+    sig = re.sub(r"^pub(\([^)]*\))?\s+", "", info["sig"])
+    if f.get("ret"):
+        sm = re.search(r"->\s*(.+?)\s*(where\b.*)?$", sig, re.S)
+        if not sm:
+            return None
+        sig = sig[:sm.start()] + "-> (%s: %s)" % (f["ret"], sm.group(1).strip()) + (" " + sm.group(2) if sm.group(2) else "")
+    for (a, b) in f.get("sig_rewrites", []):
+        if a not in sig:
+            return None
+        sig = sig.replace(a, b)
+    clauses = ""
+    if f.get("requires"):
+        clauses += "\n    requires\n" + f["requires"].rstrip().rstrip(",") + ","
+    if f.get("ensures"):
+        clauses += "\n    ensures\n" + f["ensures"].rstrip().rstrip(",") + ","
+    return "#[verifier::external_body]\n" + sig + clauses + "\n{ unimplemented!() }\n"
+
+
 def _annotate_closure(body, c, fname, counts):
     m = rsx.mask(body)
     a = body.find(c["after"])
@@ -330,12 +354,22 @@ def build_unit(scratch, name, unit):
     if unit.get("pre"):
         parts.append(unit["pre"])
     fn_lines = {}
+    lost = {}
     for it in unit["items"]:
         src = open(os.path.join(scratch.repo, "src", it["file"] + ".rs")).read() if it.get("file") else ""
         if it["kind"] == "struct":
             parts.append(_splice_struct(src, it, counts))
         elif it["kind"] == "fn":
-            txt = _splice_fn(src, it, counts)
+            try:
+                txt = _splice_fn(src, it, counts)
+            except Undecided as e:
+                # a lost anchor INSIDE one function (rewritten body, vanished hint line, different loop structure) must
+                # not take the rest of the unit down: that function becomes a stub carrying its contract (its own
+                # obligation is undecided), every other function of the unit is still checked - against that contract
+                txt = _stub_fn(src, it)
+                if txt is None:
+                    raise
+                lost[it.get("key") or it["name"]] = str(e)
             if it.get("impl_of"):
                 txt = "impl %s {\n%s}\n" % (it.get("impl_header", it["impl_of"]), txt)
             start = sum(p.count("\n") for p in parts) + 1
@@ -366,6 +400,7 @@ def build_unit(scratch, name, unit):
     if unit.get("post"):
         parts.append(unit["post"])
     parts.append("} // verus!\nfn main() {}\n")
+    counts["_lost"] = lost
     return "".join(parts), counts, fn_lines
 
 
@@ -409,6 +444,8 @@ def classify(unit_name, res, fn_name):
     except KeyError:
         pass
     # map diagnostics to functions by line number
+    if fn_name in res["counts"].get("_lost", {}):
+        return "undecided", "lost anchor inside %s (replaced by a stub with its contract so that the rest of the unit is still decided): %s" % (fn_name, res["counts"]["_lost"][fn_name]), 0.0, None
     (lo, hi) = res["fn_lines"].get(fn_name, (0, 0))
     errs = []
     for em in re.finditer(r"^(error[^\n]*)\n\s*-->\s*[^:\n]+:(\d+):(\d+)", diag, re.M):
